@@ -10,6 +10,8 @@ set-of-subscriptions model and a regex rendering of the glob grammar, both writt
 the implementation.
 """
 import itertools
+import socket
+import time
 
 from common import *
 
@@ -556,6 +558,8 @@ class C14:
         self.tcp_run([("sub", 1, "c", [b"news"]), ("sub", 2, "c", [b"news"]), ("disc", 1, "close"), ("pub", 3, b"news", b"m")], "tcp-corpus-dead-subscriber")
         self.tcp_run([("sub", 1, "c", [b"news"]), ("disc", 1, "quit"), ("pub", 3, b"news", b"m"), ("sub", 1, "c", [b"news"]), ("pub", 3, b"news", b"m2")],
                      "tcp-corpus-dead-subscriber-quit")
+        for mode, held, ops in ending_matrix():
+            self.tcp_run(ops, "tcp-ending-%s-%s" % (mode, held))
         tr = r.fork("tcp")
         for i in range(40 * (8 if tier == "thorough" else 1)):
             ops = gen_tcp_history(tr, tr.range(6, 30))
@@ -631,29 +635,46 @@ def parse_events(s):
     return [] if s == "." else s.split("|")
 
 
+AUX = 9            # logical id of the harness's own publisher (in-flight publishes and probes); never subscribes
+
+# every way a subscriber connection can end (x what the server has queued for it at that moment)
+END_MODES = ["close",           # FIN, nothing queued
+             "quit",            # QUIT, +OK read, close
+             "reset",           # RST (SO_LINGER 0), nothing queued
+             "half-close",      # shutdown(SHUT_WR): the server reads EOF while it could still write
+             "quit-pipelined",  # SUBSCRIBE <ch> + QUIT in one write, then close
+             "fin-queued",      # FIN while a message for it is queued (publisher pipelines SLEEP + PUBLISH in one write)
+             "rst-queued",      # RST while a message for it is queued (same recipe)
+             "rst-burst"]       # RST in the middle of a pipelined burst of PUBLISHes it does not read
+QUEUED_MODES = ("fin-queued", "rst-queued", "rst-burst")
+SLEEP_MS = 250
+BURST = 60
+
+
 class Tcp:
-    """Logical connections 1..4 as sockets to a real server; a control connection for barriers.
-    After every operation each live connection is drained up to a PING barrier, so that every
-    frame is attributed to the operation that caused it."""
+    """Logical connections 1..4 as sockets to a real server, a control connection for barriers and
+    a publisher of the harness's own (AUX).  After every operation each live connection is
+    drained up to a PING barrier, so that every frame is attributed to the operation that caused it."""
 
     def __init__(self, check):
         import server as srvmod
         self.srvmod = srvmod
         self.check = check
-        self.srv = srvmod.Server("c14")
+        self.start()
+
+    def start(self):
+        self.srv = self.srvmod.Server("c14")
         self.ctl = self.srv.client()
+        self.aux = self.srv.client(timeout=15.0)
         self.socks = {}
         self.ghosts = []     # subscription sets of connections that went away while subscribed (this history)
 
     def restart(self):
         self.close()
-        self.srv = self.srvmod.Server("c14")
-        self.ctl = self.srv.client()
-        self.socks = {}
-        self.ghosts = []
+        self.start()
 
     def close(self):
-        for cl in list(self.socks.values()) + [self.ctl]:
+        for cl in list(self.socks.values()) + [self.ctl, self.aux]:
             cl.close()
         self.srv.stop()
         self.socks = {}
@@ -686,26 +707,91 @@ class Tcp:
         self.socks = {}
         self.settle()
 
+    def loop_count(self):
+        r = self.ctl.cmd("VERIF", "LOOP")
+        return r[1] if r[0] == "i" else None
+
     def settle(self):
-        # two round trips = at least one complete iteration of the server loop in between
-        self.ctl.cmd("PING")
-        self.ctl.cmd("PING")
+        """return after the server's event loop has completed at least two more full iterations
+        (every connection is visited and closing connections are dropped once per iteration)"""
+        n0 = self.loop_count()
+        if n0 is None:
+            # no hook: two round trips = at least one complete iteration in between
+            self.ctl.cmd("PING")
+            self.ctl.cmd("PING")
+            time.sleep(0.05)
+            return
+        for _ in range(5000):
+            n = self.loop_count()
+            if n is None or n >= n0 + 3:
+                return
+
+    def end(self, c, mode, ch):
+        """End logical connection `c` in the given way.  Returns (frames read by c before the end,
+        frames read by c as part of the end, channel subscribed by a pipelined SUBSCRIBE or None,
+        [(payload, reply)] of the publishes that were in flight)."""
+        cl = self.socks.pop(c, None)
+        if cl is None:
+            return [], [], None, []
+        before = self.drain(cl)
+        during, presub, inflight = [], None, []
+        import struct
+        rst = lambda: cl.s.setsockopt(socket.SOL_SOCKET, socket.SO_LINGER, struct.pack("ii", 1, 0))
+        if mode == "quit":
+            cl.send("QUIT")
+            try:
+                cl.read_reply()
+            except Exception:
+                pass
+        elif mode == "reset":
+            rst()
+        elif mode == "half-close":
+            cl.s.shutdown(socket.SHUT_WR)
+            self.settle()
+            try:
+                while True:                      # the server drops the connection: EOF on our side
+                    during.append(frame_event(cl.read_reply(timeout=2.0)))
+            except Exception:
+                pass
+        elif mode == "quit-pipelined":
+            presub = ch
+            cl.send_raw(cl.encode(["SUBSCRIBE", ch]) + cl.encode(["QUIT"]))
+            try:
+                for _ in range(2):
+                    f = cl.read_reply()
+                    if f != ("s", b"OK"):
+                        during.append(frame_event(f))
+            except Exception:
+                pass
+        elif mode in ("fin-queued", "rst-queued"):
+            payload = b"\x00in-flight\xff\r\n"
+            self.aux.send_raw(self.aux.encode(["SLEEP", str(SLEEP_MS)]) + self.aux.encode(["PUBLISH", ch, payload]))
+            time.sleep(SLEEP_MS / 1000.0 * 0.4)      # the event loop is inside SLEEP now
+            if mode == "rst-queued":
+                rst()
+            cl.close()
+            self.aux.read_reply()                    # +OK of SLEEP
+            r = self.aux.read_reply()
+            inflight.append((payload, r[1] if r[0] == "i" else None))
+        elif mode == "rst-burst":
+            payload = b"x" * 256
+            self.aux.send_raw(b"".join(self.aux.encode(["PUBLISH", ch, payload]) for _ in range(BURST)))
+            time.sleep(0.002)                        # somewhere inside the burst, nothing read
+            rst()
+            cl.close()
+            for _ in range(BURST):
+                r = self.aux.read_reply()
+                inflight.append((payload, r[1] if r[0] == "i" else None))
+        cl.close()
+        self.settle()
+        return before, during, presub, inflight
 
     def do(self, op):
-        """execute one operation; returns {conn: [events caused by it]}"""
-        got = {}
-        if op[0] == "disc":
-            cl = self.socks.pop(op[1], None)
-            if cl is not None:
-                got[op[1]] = self.drain(cl)
-                if op[2] == "quit":
-                    cl.send("QUIT")
-                    try:
-                        cl.read_reply()
-                    except Exception:
-                        pass
-                cl.close()
-            self.settle()
+        """execute one operation; returns ({conn: [events caused by it]}, reply to an AUX publish or None)"""
+        got, reply = {}, None
+        if op[0] == "pub" and op[1] == AUX:
+            r = self.aux.cmd("PUBLISH", op[2], op[3])
+            reply = r[1] if r[0] == "i" else None
         else:
             cl = self.sock(op[1])
             if op[0] == "sub":
@@ -715,10 +801,13 @@ class Tcp:
             elif op[0] == "pub":
                 cl.send("PUBLISH", op[2], op[3])
             got[op[1]] = self.drain(cl)
+        self.drain_rest(got)
+        return got, reply
+
+    def drain_rest(self, got):
         for c, other in self.socks.items():
             if c not in got:
                 got[c] = self.drain(other)
-        return got
 
 
 def canon_events(events, unsub_all):
@@ -735,110 +824,223 @@ def canon_events(events, unsub_all):
     return ints, sorted(rest)
 
 
+def matching_channels(h, seen):
+    """channels on which a connection holding `h` receives something: those it subscribed to, and the
+    channels used so far that one of its patterns matches"""
+    out = list(h["c"])
+    for ch in sorted(seen):
+        if ch not in out and any(spec_glob(p, ch) for p in h["p"]):
+            out.append(ch)
+    return out
+
+
 def tcp_history(check, tcp, ops, record=True):
-    """One history on the real server, the Lean models and the oracle.  Returns (fails, dis)."""
+    """One history on the real server, the Lean models and the oracle.  Returns (fails, dis).
+
+    A `disc` operation ends the connection in the way its third component says (END_MODES); the
+    modes that need output queued for the dying connection put one or more PUBLISHes by the
+    harness's own publisher in flight.  After every ending of a connection that held subscriptions
+    the harness publishes a probe on each channel that connection was receiving on: the reply must
+    be the model's count (a disconnected connection holds nothing)."""
     rep = check.rep
     fails, dis = [], []
     if tcp.ghosts or not record:
-        # connections that went away while subscribed may linger on the server (listed finding):
-        # never let them leak into another history; shrinking and replays always get a fresh server
+        # never let anything of another history linger on the server; shrinking and replays always get a fresh server
         tcp.restart()
     else:
         tcp.reset()
     check.ask_model("reset")
     orc = Oracle()
     prev = {c: ([], []) for c in (1, 2, 3, 4)}
-    for i, op in enumerate(ops):
-        line = op_line(op, check.dedup)
-        try:
-            got = tcp.do(op)
-        except (TimeoutError, tcp.srvmod.Closed, tcp.srvmod.ProtocolError, OSError) as e:
-            fails.append({"i": i, "kind": "total", "op": line, "impl": "%s: %s" % (type(e).__name__, e), "layer": "tcp",
-                          "why": "no (well-formed) reply from the server; alive=%s %s" % (tcp.srv.alive(), tcp.srv.log_tail(300))})
-            tcp.restart()
-            break
-        check.ask_model(line)
-        if record:
-            rep.evaluations += 1
-            rep.count("tcp.op." + op[0])
-        if op[0] == "disc":
-            h = orc.held.get(op[1])
-            if h and (h["c"] or h["p"]):
-                tcp.ghosts.append({"c": list(h["c"]), "p": list(h["p"])})
-            orc.disc(op[1])
-        elif op[0] == "sub":
-            want_acks = orc.sub(op[1], op[2], op[3])
-        elif op[0] == "unsub":
-            held_before = orc.count(op[1])
-            want_acks = orc.unsub(op[1], op[2], op[3])
-            if op[3] is None and not want_acks:
-                want_acks = [(None, orc.count(op[1]), False)]     # nil name, remaining count
-        gmax = 0
-        if op[0] == "pub":
-            gmax = sum((1 if op[2] in g["c"] else 0) + sum(1 for p in g["p"] if spec_glob(p, op[2])) for g in tcp.ghosts)
-        for c in (1, 2, 3, 4):
-            m = split_cs(check.ask_model("recv %d %d %d" % (check.dedup, check.idle, c)), ("C", "S"))
-            ec, es = parse_events(m["C"]), parse_events(m["S"])
-            new_c, new_s = ec[len(prev[c][0]):], es[len(prev[c][1]):]
-            prev[c] = (ec, es)
-            real = got.get(c, [])
+    seen = set()
+
+    def expand(op):
+        """the steps one operation of the history consists of"""
+        if op[0] != "disc":
+            yield op
+            return
+        c, mode = op[1], (op[2] if len(op) > 2 else "close")
+        h = orc.held.get(c) or {"c": [], "p": []}
+        h = {"c": list(h["c"]), "p": list(h["p"])}
+        on = matching_channels(h, seen)
+        if mode in QUEUED_MODES and not on:
+            mode = "close" if mode == "fin-queued" else "reset"      # nothing can be queued for it
+        ch = on[0] if on else (sorted(seen)[0] if seen else b"news")
+        yield ("end", c, mode, ch)
+        if h["c"] or h["p"] or mode == "quit-pipelined":
+            for pch in (on or [ch])[:3]:
+                yield ("pub", AUX, pch, b"probe\r\n", "probe")
+
+    for i, op0 in enumerate(ops):
+        for op in expand(op0):
+            line0 = op_line(op0, check.dedup)
+            skip = set()
+            inflight, lines, reply, probe = [], [], None, len(op) > 4
+            try:
+                if op[0] == "end":
+                    c, mode, ch = op[1], op[2], op[3]
+                    had = c in tcp.socks
+                    before, during, presub, inflight = tcp.end(c, mode, ch)
+                    got = {c: before + during}
+                    tcp.drain_rest(got)
+                    if presub is not None and had:
+                        lines.append(op_line(("sub", c, "c", [presub]), check.dedup))
+                        orc.sub(c, "c", [presub])
+                    for payload, _ in inflight:
+                        lines.append(op_line(("pub", AUX, ch, payload), check.dedup))
+                        skip.add(c)          # what was queued for the dying connection is lost with it
+                    lines.append("disc %d" % c)
+                    h = orc.held.get(c)
+                    if h and (h["c"] or h["p"]):
+                        tcp.ghosts.append({"c": list(h["c"]), "p": list(h["p"])})
+                    queued = bool(inflight)
+                    if record:
+                        rep.count("tcp.end.%s.%s" % (mode, "subscribed" if h and (h["c"] or h["p"]) else "not-subscribed"))
+                        rep.nontrivial(("tcp-end", mode, bool(h and h["c"]), bool(h and h["p"]), queued))
+                    line = "end %d %s %s" % (c, mode, hx(ch))
+                else:
+                    got, reply = tcp.do(op)
+                    line = op_line(op, check.dedup)
+                    lines.append(line)
+            except (TimeoutError, tcp.srvmod.Closed, tcp.srvmod.ProtocolError, OSError) as e:
+                fails.append({"i": i, "kind": "total", "op": line0, "impl": "%s: %s" % (type(e).__name__, e), "layer": "tcp",
+                              "why": "no (well-formed) reply from the server; alive=%s %s" % (tcp.srv.alive(), tcp.srv.log_tail(300))})
+                tcp.ghosts.append({"c": [], "p": []})     # force a fresh server for the next history
+                return fails, dis
+            base0 = {"i": i, "op": line, "layer": "tcp"}
+            # ---- the model side of this step
+            answers = [check.ask_model(l) for l in lines]
             if record:
                 rep.evaluations += 1
-            ua = op[0] == "unsub" and op[3] is None and c == op[1]
-            ints_r, real_f = canon_events(real, ua)
-            ints_c, code_f = canon_events(new_c, ua)
-            ints_s, spec_f = canon_events(new_s, ua)
-            base = {"i": i, "op": line, "conn": c, "layer": "tcp"}
-            if c == op[1] and op[0] in ("sub", "unsub"):
-                # the confirmations due, from the oracle written here (cross-check of the Lean Spec)
-                want_ev = ["a:%s:%d:%s:%d" % (op[2], 1 if op[0] == "unsub" else 0, hx(a[0]) if a[0] is not None else "_", a[1]) for a in want_acks]
-                if canon_events(want_ev, ua)[1] != spec_f:
-                    dis.append(dict(base, lean_spec="|".join(new_s) or ".", oracle="|".join(want_ev) or ".", what="Lean Spec vs Python oracle"))
-                if record and op[0] == "unsub" and any(a[0] is None for a in want_acks):
-                    rep.count("tcp.unsub.nil-name-confirmation")
-                if record and op[0] == "unsub" and held_before == 0:
-                    rep.count("tcp.unsub.client-holds-nothing")
-            # -- the property, judged on what the sockets delivered
-            if real_f != spec_f:
-                shape = "other"
-                if op[0] == "pub" and len(real_f) == 1 and len(spec_f) >= 2 and real_f[0] in spec_f and \
-                        (real_f[0].startswith("m:") or not any(e.startswith("m:") for e in spec_f)):
-                    shape = "one-per-connection"
-                fails.append(dict(base, kind="stream", impl="|".join(real) or ".", want="|".join(new_s) or ".", shape=shape,
-                                  why="frames read by connection %d differ from one per matching subscription / the acknowledgements due" % c))
-            if ints_r != ints_s:
-                det = dict(base, kind="publish", impl="|".join(ints_r) or ".", want="|".join(ints_s) or ".",
-                           why="PUBLISH reply is not the number of deliveries to the clients subscribed at that moment")
-                if op[0] == "pub" and len(ints_r) == len(ints_c) == len(ints_s) == 1:
-                    n_r, n_c, n_s = int(ints_r[0][2:]), int(ints_c[0][2:]), int(ints_s[0][2:])
-                    if 0 <= n_r - n_c <= gmax and n_c <= n_s:
-                        if n_r > n_c:
-                            fails.append(dict(det, shape="dead-subscriber-counted", ghosts=n_r - n_c))
-                        if n_c < n_s:
-                            fails.append(dict(det, shape="one-per-connection"))
+                rep.count("tcp.op." + (op[0] if not probe else "probe"))
+            if op[0] == "end":
+                # publishes in flight while the connection was going away: the reply may or may not count it
+                pubs = [split_cs(a, ("C", "S")) for l, a in zip(lines, answers) if l.startswith("pub ")]
+                for (payload, n_r), m in zip(inflight, pubs):
+                    sd = parse_dels(m["S"])
+                    lo, hi = sum(1 for d in sd if d[0] != op[1]), len(sd)
+                    if n_r is None or not (lo <= n_r <= hi):
+                        fails.append(dict(base0, kind="publish", shape="in-flight", impl="n:%s" % n_r, want="n:%d..%d" % (lo, hi),
+                                          why="reply to a PUBLISH that was in flight while connection %d went away is outside what its subscribers allow" % op[1]))
+                orc.disc(op[1])
+            elif op[0] == "sub":
+                want_acks = orc.sub(op[1], op[2], op[3])
+                seen.update(op[3] if op[2] == "c" else [])
+            elif op[0] == "unsub":
+                held_before = orc.count(op[1])
+                want_acks = orc.unsub(op[1], op[2], op[3])
+                if op[3] is None and not want_acks:
+                    want_acks = [(None, orc.count(op[1]), False)]     # nil name, remaining count
+            elif op[0] == "pub":
+                seen.add(op[2])
+            gmax = 0
+            if op[0] == "pub":
+                gmax = sum((1 if op[2] in g["c"] else 0) + sum(1 for p in g["p"] if spec_glob(p, op[2])) for g in tcp.ghosts)
+            if op[0] == "pub" and op[1] == AUX:
+                # the harness's own publisher: its reply is compared here (it has no stream in the model)
+                m = split_cs(answers[0], ("C", "S"))
+                n_c, n_s = len(parse_dels(m["C"])), len(parse_dels(m["S"]))
+                want = orc.deliveries(op[2])
+                if len(want) != n_s:
+                    dis.append(dict(base0, lean_spec="n:%d" % n_s, oracle="n:%d" % len(want), what="Lean Spec vs Python oracle"))
+                if reply != n_s:
+                    shape = "other"
+                    if reply is not None and n_c == n_s and n_s < reply <= n_s + gmax:
+                        shape = "dead-subscriber-counted"
+                    elif reply == n_c and n_c < n_s:
+                        shape = "one-per-connection"
+                    fails.append(dict(base0, kind="publish", conn=AUX, impl="n:%s" % reply, want="n:%d" % n_s, shape=shape,
+                                      why="PUBLISH reply is not the number of deliveries to the clients subscribed at that moment "
+                                          "(connections that went away before: %d)" % len(tcp.ghosts)))
+                elif reply != n_c:
+                    dis.append(dict(base0, conn=AUX, impl="n:%s" % reply, code="n:%d" % n_c))
+                if record:
+                    rep.nontrivial(("tcp-probe" if probe else "tcp-auxpub", min(n_s, 3), reply == n_s))
+            # ---- every logical connection's stream
+            for c in (1, 2, 3, 4):
+                m = split_cs(check.ask_model("recv %d %d %d" % (check.dedup, check.idle, c)), ("C", "S"))
+                ec, es = parse_events(m["C"]), parse_events(m["S"])
+                new_c, new_s = ec[len(prev[c][0]):], es[len(prev[c][1]):]
+                prev[c] = (ec, es)
+                if c in skip:
+                    continue
+                real = got.get(c, [])
+                if record:
+                    rep.evaluations += 1
+                ua = op[0] == "unsub" and op[3] is None and c == op[1]
+                ints_r, real_f = canon_events(real, ua)
+                ints_c, code_f = canon_events(new_c, ua)
+                ints_s, spec_f = canon_events(new_s, ua)
+                base = dict(base0, conn=c)
+                if c == op[1] and op[0] in ("sub", "unsub"):
+                    # the confirmations due, from the oracle written here (cross-check of the Lean Spec)
+                    want_ev = ["a:%s:%d:%s:%d" % (op[2], 1 if op[0] == "unsub" else 0, hx(a[0]) if a[0] is not None else "_", a[1]) for a in want_acks]
+                    if canon_events(want_ev, ua)[1] != spec_f:
+                        dis.append(dict(base, lean_spec="|".join(new_s) or ".", oracle="|".join(want_ev) or ".", what="Lean Spec vs Python oracle"))
+                    if record and op[0] == "unsub" and any(a[0] is None for a in want_acks):
+                        rep.count("tcp.unsub.nil-name-confirmation")
+                    if record and op[0] == "unsub" and held_before == 0:
+                        rep.count("tcp.unsub.client-holds-nothing")
+                # -- the property, judged on what the sockets delivered
+                if real_f != spec_f:
+                    shape = "other"
+                    if op[0] == "pub" and len(real_f) == 1 and len(spec_f) >= 2 and real_f[0] in spec_f and \
+                            (real_f[0].startswith("m:") or not any(e.startswith("m:") for e in spec_f)):
+                        shape = "one-per-connection"
+                    fails.append(dict(base, kind="stream", impl="|".join(real[:8]) or ".", want="|".join(new_s[:8]) or ".", shape=shape,
+                                      why="frames read by connection %d differ from one per matching subscription / the acknowledgements due" % c))
+                if ints_r != ints_s:
+                    det = dict(base, kind="publish", impl="|".join(ints_r) or ".", want="|".join(ints_s) or ".",
+                               why="PUBLISH reply is not the number of deliveries to the clients subscribed at that moment "
+                                   "(connections that went away before: %d)" % len(tcp.ghosts))
+                    if op[0] == "pub" and len(ints_r) == len(ints_c) == len(ints_s) == 1:
+                        n_r, n_c, n_s = int(ints_r[0][2:]), int(ints_c[0][2:]), int(ints_s[0][2:])
+                        if 0 <= n_r - n_c <= gmax and n_c <= n_s:
+                            if n_r > n_c:
+                                fails.append(dict(det, shape="dead-subscriber-counted", ghosts=n_r - n_c))
+                            if n_c < n_s:
+                                fails.append(dict(det, shape="one-per-connection"))
+                        else:
+                            fails.append(dict(det, shape="other"))
                     else:
                         fails.append(dict(det, shape="other"))
-                else:
-                    fails.append(dict(det, shape="other"))
-            # -- correspondence with Code, up to hash-map order; a dead subscriber still being counted is a
-            #    listed defect of the connection handling, which Code (the manager) does not contain
-            ok_c = real_f == code_f
-            if not ok_c and check.dedup and sorted(e.split(":")[0] for e in real_f) == sorted(e.split(":")[0] for e in code_f):
-                # which matching pattern a de-duplicated pmessage names depends on hash-map order
-                ok_c = all(e in spec_f for e in real_f)
-            if not ok_c:
-                dis.append(dict(base, impl="|".join(real) or ".", code="|".join(new_c) or "."))
-            if ints_r != ints_c:
-                if not (len(ints_r) == len(ints_c) == 1 and 0 < int(ints_r[0][2:]) - int(ints_c[0][2:]) <= gmax):
-                    dis.append(dict(base, impl="|".join(ints_r) or ".", code="|".join(ints_c) or "."))
-            if record and (real or new_s):
-                rep.nontrivial(("tcp", op[0], c == op[1], min(len(real_f), 3), min(len(spec_f), 3), real_f == spec_f, ints_r == ints_s))
+                # -- correspondence with Code, up to hash-map order; a dead subscriber still being counted is a
+                #    defect of the connection handling, which Code (the manager) does not contain
+                ok_c = real_f == code_f
+                if not ok_c and check.dedup and sorted(e.split(":")[0] for e in real_f) == sorted(e.split(":")[0] for e in code_f):
+                    # which matching pattern a de-duplicated pmessage names depends on hash-map order
+                    ok_c = all(e in spec_f for e in real_f)
+                if not ok_c:
+                    dis.append(dict(base, impl="|".join(real[:8]) or ".", code="|".join(new_c[:8]) or "."))
+                if ints_r != ints_c:
+                    if not (len(ints_r) == len(ints_c) == 1 and 0 < int(ints_r[0][2:]) - int(ints_c[0][2:]) <= gmax):
+                        dis.append(dict(base, impl="|".join(ints_r) or ".", code="|".join(ints_c) or "."))
+                if record and (real or new_s):
+                    rep.nontrivial(("tcp", op[0], c == op[1], min(len(real_f), 3), min(len(spec_f), 3), real_f == spec_f, ints_r == ints_s))
     return fails, dis
 
 
 def gen_tcp_history(r, n_ops):
     ops = gen_history(r, n_ops, server_like=True)
-    return [(o[0], o[1], r.choice(["close", "close", "quit"])) if o[0] == "disc" else o for o in ops]
+    return [(o[0], o[1], r.choice(END_MODES)) if o[0] == "disc" else o for o in ops]
+
+
+def ending_matrix():
+    """every way a subscriber connection can end x what it holds (channel, pattern, both), each followed
+    by a fresh subscriber, a publish, its unsubscription and another publish"""
+    out = []
+    for mode in END_MODES:
+        for held in ("c", "p", "cp"):
+            ops = [("sub", 2, "c", [b"feed"])]
+            if "c" in held:
+                ops.append(("sub", 1, "c", [b"feed"]))
+            if "p" in held:
+                ops.append(("sub", 1, "p", [b"fe*", b"*"]))
+            ops += [("pub", 3, b"feed", b"before"), ("disc", 1, mode), ("pub", 3, b"feed", b"after"),
+                    ("sub", 4, "c", [b"feed"]), ("pub", 3, b"feed", b"hello"), ("unsub", 4, "c", [b"feed"]), ("unsub", 2, "c", None),
+                    ("pub", 3, b"feed", b"nobody"), ("sub", 1, "c", [b"feed"]), ("pub", 3, b"feed", b"back")]
+            out.append((mode, held, ops))
+    return out
 
 
 def classify(kind, det, findings):
@@ -878,8 +1080,11 @@ def main(tier, seed):
                 "lists, and every 5 operations get_subscription_info / is_subscribed / channel_subscriber_count, are compared with Code and "
                 "judged by the set-of-subscriptions oracle; pattern_matches vs Code.globBytes vs Spec.glob vs a regex oracle on grammar-"
                 "generated pairs and on all pairs of a small scope (model validation). TCP: the same kind of histories with 4 client sockets "
-                "on the real server (disconnect = close or QUIT+close); after every operation every live socket is drained up to a PING "
-                "barrier and the frames are compared with the per-connection streams of Code and Spec. "
+                "on the real server; a disconnect ends the connection in one of 8 ways (FIN / QUIT / RST with nothing queued, half-close, SUBSCRIBE+QUIT "
+                "pipelined, FIN / RST while a message for it is queued behind SLEEP+PUBLISH in one write, RST inside an unread burst of 60 publishes), "
+                "the full matrix way x {channel, pattern, both} runs first; after every ending the harness's own publisher probes every channel the "
+                "connection was receiving on (the model says a disconnected connection holds nothing); after every operation every live socket is "
+                "drained up to a PING barrier and the frames are compared with the per-connection streams of Code and Spec. "
                 "distinct = (operation, kind, sizes, outcome class) tuples")
     rep.assumptions = [
         "HashMap/HashSet iteration order is arbitrary: acknowledgements of an argument-less (P)UNSUBSCRIBE and receiver lists are compared as multisets; "
